@@ -2,21 +2,26 @@ package probe
 
 import (
 	"fmt"
+	"os"
+	"path/filepath"
 	"testing"
+	"time"
 
 	"github.com/google/mtail/verif/hx"
 )
 
 func TestProbe(t *testing.T) {
-	for _, src := range []string{
-		"counter c by k, k\n/(\\S+) (\\S+)/ {\n  c[$1][$2]++\n}\n",
-		"counter c by prog\n/(\\S+)/ {\n  c[$1]++\n}\n",
-		"counter c by le\n/(\\S+)/ {\n  c[$1]++\n}\n",
-	} {
-		obj, err := hx.Compile("p.mtail", src)
-		fmt.Println("compile err:", err)
-		if err == nil {
-			fmt.Println(obj.Metrics[0].Keys)
+	files, _ := filepath.Glob("/repo/examples/*.mtail")
+	f2, _ := filepath.Glob("/repo/internal/runtime/fuzz/*.mtail")
+	f3, _ := filepath.Glob("/repo/internal/mtail/testdata/*.mtail")
+	files = append(append(files, f2...), f3...)
+	for _, f := range files {
+		b, _ := os.ReadFile(f)
+		t0 := time.Now()
+		_, err := hx.Compile("p.mtail", string(b))
+		d := time.Since(t0)
+		if d > 5*time.Millisecond {
+			fmt.Println(f, len(b), d, err != nil)
 		}
 	}
 }
